@@ -20,6 +20,8 @@ def block_spec(r, boolean, small=True):
         return {'type': 'seq', 'start': start, 'values': vals}
     base = r.choice([0, 1, 5, 40])
     keys = sorted(set(base + r.randrange(0, 40) for _ in range(r.randint(1, 24))))
+    if r.random() < 0.5:
+        r.shuffle(keys)
     return {'type': 'sparse', 'cells': {k: ((r.random() < 0.5) if boolean else r.randrange(65536)) for k in keys}}
 
 
@@ -60,13 +62,17 @@ def build(layout):
     for uid, lay in layout['units'].items():
         uid = int(uid)
         bl = {}
+        defaulted = lay.get('defaulted', [])
         for t in TABLES:
-            if t not in lay['alias']:
+            if t not in lay['alias'] and t not in defaulted:
                 bl[t] = make_block(lay[t])
         for t, src in lay['alias'].items():
             bl[t] = bl[src]
+        kw = {k: bl[t] for k, t in (('di', 'd'), ('co', 'c'), ('ir', 'i'), ('hr', 'h')) if t in bl}
+        slaves[uid] = ModbusSlaveContext(zero_mode=zero, **kw)       # tables not given get pymodbus' default block
+        for t in defaulted:
+            bl[t] = slaves[uid].store[t]
         blocks[uid] = bl
-        slaves[uid] = ModbusSlaveContext(di=bl['d'], co=bl['c'], ir=bl['i'], hr=bl['h'], zero_mode=zero)
         tabs = {}
         for t in TABLES:
             if t in lay['alias']:
